@@ -50,7 +50,9 @@ FLOATS = [0.1234567891, -2.5, 1e-7, 1e16, 1.0 / 3.0, 123456.789012345, -0.000001
           1e-40, 12345678.9999996, -0.0, 0.30000000000000004,
           # exponent notation whose mantissa or exponent ends in '0' (any trailing-zero "compaction" of str(float) breaks these)
           7e40, 1e20, -3e30, 1.5e100]
-NONNUM = ["A", "TS_01/3.mrc", "1a", "x-1.5e3", "00012_4.2A", "B", "tomo_12.rec", "1e", "--1", "1.2.3", "opticsGroup1", "e5"]
+NONNUM = ["A", "TS_01/3.mrc", "1a", "x-1.5e3", "00012_4.2A", "B", "tomo_12.rec", "1e", "--1", "1.2.3", "opticsGroup1", "e5",
+          # quotes and separators of other table formats are ordinary characters of a STAR token
+          'grid_3.5"_sq7', "it's", "a,b;c", "x|y"]
 NUMLIKE = ["12", "-3.5", "1e3", "007", "4.50", "+2"]
 LABELS = ["rlnCoordinateX", "rlnMicrographName", "score", "x_shift", "halfset", "rlnOpticsGroup", "A", "col.2",
           "rlnCtfFigureOfMerit", "the", "class", "motl_idx", "rlnAngleRot", "b-1", "X"]
@@ -251,6 +253,13 @@ def execute_rt(case, obs):
         if obs.check(isinstance(one, tuple) and len(one) == 3 and one[1] == names[k], "Starfile.read(data_id)", "read-data-id-name",
                      lambda: f"data_id={k} returned specifier {one[1]!r}"):
             judge_frame(obs, one[0], truths[k], names[k], "", site="Starfile.read(data_id)")
+        # ... and every block addressed by its NAME (names that occur once; one name may be a prefix of another: data_ / data_optics)
+        for kk, nm in enumerate(names):
+            if names.count(nm) != 1:
+                continue
+            got = obs.lib("Starfile.get_frame_and_comments", starfileio.Starfile.get_frame_and_comments, "c02_a.star", nm)
+            if obs.check(isinstance(got, tuple) and len(got) == 2, "Starfile.get_frame_and_comments", "read-by-name-returns-pair", lambda: repr(got)[:200]):
+                judge_frame(obs, got[0], truths[kk], nm, "by-name", site="Starfile.get_frame_and_comments")
     # second generation: what was read is itself a list of tables inside the quantifier
     truths1 = [frame_truth(f) for f in frames1]
     if any(kind == "text" and col and all(startok.is_numeric(str(v)) for v in col) for t in truths1 for kind, col in zip(t["kinds"], t["cols"])):
